@@ -16,14 +16,25 @@ LEVEL_TEXT = ("partial: Coq theorems over a small-step interleaving model of bot
               "implementation observations only for configurations without size limit")
 LEVEL_NOTE = ("the model cuts every operation into the atomic sections between verifhook.Point sites; Go's mutexes, channels and "
               "scheduler are modelled (atomic sections, unbuffered rendezvous), not verified; the file store's message cap is "
-              "outside the concurrency model")
+              "outside the concurrency model. ASSUMED by the file model, not observable at hook granularity: an operation holds "
+              "its bucket lock from before its index read to after its index commit (there is no hook site between lock "
+              "acquisition and the first file-system mutation, so forced schedules cannot enter such a gap). This is CHECKED on "
+              "every run by the free-running streams instead: 'burst' (three goroutines, one operation each, on one lock bucket, "
+              "real start/end instants, judged round by round by the extracted sequential specification = linearizability "
+              "oracle) and 'stress' (4 goroutines x 300 operations on one bucket, conservation checks: a delivery that returned "
+              "an id is found and listed until its owner removes it, a set seen flag stays set, a removed message stays removed, "
+              "listings are in delivery order without duplicates, ids distinct); what the forced schedules do monitor is that a "
+              "party the model says is blocked really makes no progress (lock / rendezvous present)")
 TECHNIQUE = "machine-checked proof in Coq + model/code correspondence check (forced schedules)"
 DESIGN_REF = "DESIGN.md §4 C09"
 RULE = ("combos (store configuration, sequential prefix history, 2-3 concurrent operations) come from the seeded Go generator; the "
         "schedules of each combo are enumerated from the extracted model (preemption-bounded DFS, sampled, plus seeded random walks, "
         "plus probe schedules ending in a pick the model says must block); each schedule is replayed on the real store with every "
         "goroutine parked at verifhook.Point sites; distinct = distinct (combo, schedule); non-trivial = at least two operations "
-        "interleave (a context switch between client goroutines or with the enforcer)")
+        "interleave (a context switch between client goroutines or with the enforcer); plus free-running streams on one lock "
+        "bucket of both stores: burst (seeded; 250 rounds of 3 concurrent operations per case, each round judged by the "
+        "linearizability oracle) and stress (4 goroutines x 300 operations, history conservation checks); every such case is "
+        "non-trivial")
 TRUSTED = [
     "Go runtime: sync.Mutex/RWMutex give mutual exclusion, an unbuffered channel send completes only with a receive, close(done) releases the waiter (modelled, not verified)",
     "the controller's judgement 'blocked' = no progress for 50 ms (unexpected ones are re-run 3x with 500 ms before they are reported)",
@@ -52,7 +63,7 @@ def project(kind, ins, outs):
 
 
 def nontrivial(kind, ins, outs):
-    if kind == "stress":
+    if kind in ("stress", "burst"):
         return True
     s = ins[-1].rstrip("!")
     clients = [c for c in s if c != "e"]
@@ -63,6 +74,10 @@ def nontrivial(kind, ins, outs):
 def shrink_candidates(inp):
     parts = inp.split(" ")
     kind = parts[0]
+    if kind == "burst" and int(parts[3]) > 20:
+        # fewer rounds (the failing round is named in the verdict; timing decides whether it recurs)
+        yield " ".join(parts[:3] + [str(int(parts[3]) // 2)])
+        return
     if kind not in ("mem", "file"):
         return
     sched = parts[-1]
